@@ -68,7 +68,7 @@ def _grain_blob(q, grain_bytes, *, compressed, lba, lba_value=0, level=6, noise=
 
 def build_hosted(ents, present, *, capacity, grain, gtes, footer=False, compressed=False, lba=True, file_id=0, desc=None,
                  slot_mult=1, level=6, rgd=False, max_pos=None, name=None, magic=b"KDMV", version=1, zero_gte=True,
-                 tight=False, noise=None, data_base_min=0, rgd_off=0, unclean=0):
+                 tight=False, noise=None, data_base_min=0, rgd_off=0, unclean=0, csalt=0):
     """ents: per real grain ("U"|"Z"|"D", q); present: per real grain table bool.
     capacity, grain in sectors.  data_base_min: first sector of the grain data area is at least this (sector numbers
     beyond 2^31; with a footer the tables follow the data, so directory entries are that large as well).
@@ -91,7 +91,7 @@ def build_hosted(ents, present, *, capacity, grain, gtes, footer=False, compress
         # stream-optimised layout: compressed grains packed back to back at sector granularity, in position order
         cur_s = 0
         for q in sorted(used):
-            blobs[q] = _grain_blob(q, gbytes, compressed=True, lba=lba, level=level, noise=(noise or {}).get(q, 0))
+            blobs[q] = _grain_blob(q + csalt, gbytes, compressed=True, lba=lba, level=level, noise=(noise or {}).get(q, 0))
             tight_sector[q] = cur_s
             cur_s += -(-len(blobs[q]) // SECTOR)
         top_sectors = cur_s
@@ -133,7 +133,7 @@ def build_hosted(ents, present, *, capacity, grain, gtes, footer=False, compress
             if k == "D" and tight_sector:
                 ext.append(((data_base + tight_sector[q]) * SECTOR, len(blobs[q]), "bytes", blobs[q]))
             elif k == "D":
-                blob = _grain_blob(q, gbytes, compressed=True, lba=lba, level=level, noise=(noise or {}).get(q, 0))
+                blob = _grain_blob(q + csalt, gbytes, compressed=True, lba=lba, level=level, noise=(noise or {}).get(q, 0))
                 assert len(blob) <= slot * SECTOR, ("compressed grain does not fit its slot", len(blob), slot * SECTOR)
                 ext.append(((data_base + q * slot) * SECTOR, len(blob), "bytes", blob))
     elif top:
